@@ -855,7 +855,11 @@ def run(ctx):
                 "after construction and after clear(); every 10th a replay case (S; ...; clear; S); non-trivial = >=2 forwards and no construction error; "
                 "distinct by full case text; plus an ORACLE-ONLY stream (not evaluated in Coq): Serial/Biclique/RecurrentSerial over "
                 "every neuron class (LIF GLIF1 ALIF GLIF2 QIF Izhikevich EIF AdEx) run 10-16 steps in training mode with dense input, "
-                "default clear() mid-run, same inputs again, then clear(keep_adaptations=True/False), clear(submodules=False); the "
+                "default clear() mid-run, same inputs again, then clear(keep_adaptations=True/False), clear(submodules=False); also over all "
+                "four synapse classes on DELAYED connections with learned non-zero delays (every record compared with a freshly "
+                "built synapse's after clear), over a hand-written Layer subclass with identity wiring (capture_intermediate on/off), "
+                "and with torch's default dtype float32 / layer cast to float64 and the reverse (dtype and device of every state "
+                "tensor kept by clear); the "
                 "check fails if no default clear of a group with non-zero adaptations was exercised for some adaptive class"
                 + ("; plus, for one fixed small layer of each kind, every operation sequence of depth <= 4 over an alphabet of "
                    "2 forwards and 2-3 clears" if exhaustive else ""),
